@@ -39,7 +39,7 @@ Definition contains_line (k : kind) (contains_start : option nat) (eline : nat) 
   | _ => (-1)%Z
   end.
 Definition before_contains (cl : Z) (c : child) : bool :=
-  negb (c_hash c) && (Z.of_nat (c_sline c) <=? cl)%Z && c_proc c.
+  negb (c_hash c) && (Z.of_nat (c_sline c) <? cl)%Z && c_proc c.      (* `contains_line > child.sline` *)
 
 Definition before_contains_lines (cl : Z) (cs : list child) : list nat := map (fun c => c_sline c - 1) (filter (before_contains cl) cs).
 
@@ -50,7 +50,7 @@ Definition check_use (parent_is_interface : bool) (implicit_line : option nat) (
   flat_map (fun u => if u_import u then (if parent_is_interface then [] else [DImport (u_line u - 1)])
                      else if u_known u then [] else [DNotFound (u_line u - 1)]) us
   ++ match implicit_line with
-     | Some il => if (il <=? fold_left (fun m u => Nat.max m (u_line u)) us 0) && negb (match us with [] => true | _ => false end)
+     | Some il => if (il <? fold_left (fun m u => Nat.max m (u_line u)) us 0) && negb (match us with [] => true | _ => false end)
                   then [DUseAfterImplicit (il - 1)] else []
      | None => []
      end.
